@@ -116,7 +116,7 @@ def handle : List String → String
     match parseOpt o, df.toNat?, natsOfHex h, parseProgram prog with
     | some o, some df, some bs, some ops =>
       match decodeTerm cfg o df bs with
-      | some blocks => showNatList ((run cfg (Cursor.init blocks) ops).map (·.1))
+      | some blocks => showNatList ((run cfg o (Cursor.init blocks) ops).map (·.1))
       | none => "err"
     | _, _, _, _ => "bad-op"
   | ["seekfull", o, df, h, prog] =>
@@ -124,7 +124,7 @@ def handle : List String → String
     | some o, some df, some bs, some ops =>
       match decodeTerm cfg o df bs with
       | some blocks =>
-        ";".intercalate ((run cfg (Cursor.init blocks) ops).map
+        ";".intercalate ((run cfg o (Cursor.init blocks) ops).map
           (fun r => toString r.1 ++ ":" ++ toString r.2.1 ++ ":" ++ toString r.2.2))
       | none => "err"
     | _, _, _, _ => "bad-op"
